@@ -72,8 +72,8 @@ def OR(
 @xl.validate_args
 def IF(
         logical_test: func_xltypes.XlExpr,
-        value_if_true: func_xltypes.XlExpr = True,
-        value_if_false: func_xltypes.XlExpr = False
+        value_if_true: func_xltypes.XlExpr = None,
+        value_if_false: func_xltypes.XlExpr = None
 ):
     """Return one value if a condition is true and another value if it's false.
 
@@ -85,7 +85,11 @@ def IF(
     test = logical_test()
     if isinstance(test, xlerrors.ExcelError):
         return test
-    return value_if_true() if test else value_if_false()
+    # An omitted branch stands for TRUE resp. FALSE (defaults are not wrapped
+    # into expressions by validate_args).
+    if test:
+        return True if value_if_true is None else value_if_true()
+    return False if value_if_false is None else value_if_false()
 
 
 @xl.register()
